@@ -145,3 +145,76 @@ Proof.
   induction l as [|c l IH]; [reflexivity|]. cbn [forallb utf8_valid]. intros H. apply andb_prop in H. destruct H as [Hc Hl].
   unfold ascii_nz in Hc. apply andb_prop in Hc. destruct Hc as [_ Hc]. rewrite Hc. apply IH. exact Hl.
 Qed.
+
+(* ---------- what the parser returns is well-formed (no unit or maybe inside, no empty structure) ---------- *)
+Definition frame_wf (f : frame) : Prop :=
+  match f with
+  | FArr | FDictK => True
+  | FStruct acc => forallb wf acc = true
+  | FDictV k => wf k = true
+  | FDictEnd k v => wf k = true /\ wf v = true
+  end.
+
+Lemma complete_wf s : forall st top st' top', wf s = true -> Forall frame_wf st -> forallb wf top = true ->
+  complete s st top = Some (st', top') -> Forall frame_wf st' /\ forallb wf top' = true.
+Proof.
+  intros st. revert s. induction st as [|f st IH]; intros s top st' top' Hs Hst Ht H; cbn [complete] in H.
+  - injection H as <- <-. split; [constructor|]. cbn. rewrite Hs, Ht. reflexivity.
+  - inversion Hst as [|? ? Hf Hst']; subst. destruct f; try discriminate.
+    + eapply IH; [| | |exact H]; auto.
+    + injection H as <- <-. split; [|exact Ht]. constructor; [|exact Hst']. cbn in *. rewrite Hs, Hf. reflexivity.
+    + injection H as <- <-. split; [|exact Ht]. constructor; [exact Hs|exact Hst'].
+    + injection H as <- <-. split; [|exact Ht]. constructor; [split; assumption|exact Hst'].
+Qed.
+
+Lemma forallb_rev_wf l : forallb wf l = true -> forallb wf (rev l) = true.
+Proof. rewrite !forallb_forall. intros H x Hx. apply H. apply in_rev. exact Hx. Qed.
+
+Lemma simple_sig_wf c s : simple_sig c = Some s -> wf s = true.
+Proof.
+  unfold simple_sig.
+  repeat match goal with |- (if ?x then _ else _) = _ -> _ => destruct x; [intros [= <-]; reflexivity|] end.
+  discriminate.
+Qed.
+
+Lemma sig_run_wf n : forall l st top r, (length l <= n)%nat -> Forall frame_wf st -> forallb wf top = true ->
+  sig_run l st top = Some r -> forallb wf r = true.
+Proof.
+  induction n as [|n IH]; intros l st top r Hn Hst Ht H.
+  - destruct l; [|cbn in Hn; lia]. cbn in H. destruct st; [|discriminate]. injection H as <-. apply forallb_rev_wf. exact Ht.
+  - destruct l as [|c l].
+    { cbn in H. destruct st; [|discriminate]. injection H as <-. apply forallb_rev_wf. exact Ht. }
+    cbn [sig_run] in H. cbn in Hn.
+    destruct (simple_sig c) eqn:Es.
+    + destruct (complete s st top) as [[st' top']|] eqn:Ec; [|discriminate].
+      destruct (complete_wf _ _ _ _ _ (simple_sig_wf _ _ Es) Hst Ht Ec). eapply IH; [| | |exact H]; auto. lia.
+    + destruct (beq c "a").
+      * destruct l as [|c2 l']; [discriminate|]. destruct (beq c2 "{").
+        -- eapply IH; [| | |exact H]; [cbn in Hn; lia|constructor; [exact I|exact Hst]|exact Ht].
+        -- eapply IH; [| | |exact H]; [lia|constructor; [exact I|exact Hst]|exact Ht].
+      * destruct (beq c "(").
+        { eapply IH; [| | |exact H]; [lia|constructor; [reflexivity|exact Hst]|exact Ht]. }
+        destruct (beq c ")").
+        { destruct st as [|[|[|x acc]| | |] st']; try discriminate.
+          inversion Hst as [|? ? Hf Hst']; subst.
+          destruct (complete _ st' top) as [[st2 top2]|] eqn:Ec; [|discriminate].
+          assert (Hw : wf (SStruct (rev (x :: acc))) = true).
+          { cbn [wf]. pose proof (forallb_rev_wf _ Hf) as Hr. destruct (rev (x :: acc)) eqn:Er; [|exact Hr].
+            apply (f_equal (@length _)) in Er. rewrite rev_length in Er. discriminate. }
+          destruct (complete_wf _ _ _ _ _ Hw Hst' Ht Ec). eapply IH; [| | |exact H]; auto. lia. }
+        destruct (beq c "}"); [|discriminate].
+        destruct st as [|[| | | |k v] st']; try discriminate.
+        inversion Hst as [|? ? Hf Hst']; subst. cbn in Hf. destruct Hf as [Hk Hv].
+        destruct (complete _ st' top) as [[st2 top2]|] eqn:Ec; [|discriminate].
+        assert (Hw : wf (SDict k v) = true) by (cbn; rewrite Hk, Hv; reflexivity).
+        destruct (complete_wf _ _ _ _ _ Hw Hst' Ht Ec). eapply IH; [| | |exact H]; auto. lia.
+Qed.
+
+Lemma parse_sig_wf l s : parse_sig l = Some s -> s = SUnit \/ wf s = true.
+Proof.
+  unfold parse_sig. destruct (sig_run l [] []) as [r|] eqn:E; [|discriminate].
+  pose proof (sig_run_wf (length l) l [] [] r (Nat.le_refl _) (Forall_nil _) (eq_refl : forallb wf [] = true) E) as Hr.
+  destruct r as [|x [|y r']]; intros [= <-]; [left; reflexivity| |].
+  - right. cbn in Hr. apply andb_prop in Hr. tauto.
+  - right. cbn [wf]. exact Hr.
+Qed.
